@@ -54,7 +54,7 @@ func checkReg(c *core.Ctx, srv *run.Server, w *World, rr regRenderer, extra []st
 		return res, false
 	}
 	for i, d := range days {
-		want := model.Account(d, w.Res)
+		want := model.Account(d, w.Res, w.Abs)
 		if class, msg := compareRegDay(got[i], want, w.Layout, w.Exact, withFoods, withTotals); class != "" {
 			doc.Expected = fmt.Sprintf("%+v", want)
 			c.Violation(rr.name+"|"+class, msg, doc)
@@ -138,7 +138,7 @@ func runC02(c *core.Ctx) {
 				continue
 			}
 			for k, dd := range sel {
-				want := model.Account(dd, w.Res)
+				want := model.Account(dd, w.Res, w.Abs)
 				g := got[k]
 				bad := ""
 				if g.Date != dd.Date.Format(w.Layout) {
